@@ -54,6 +54,12 @@ class X86Exec:
         ev = KBEval(self.F, env, 0, self.overrides)
         self._stmt(f, f['body'], ev, depth)
 
+    def sync_pos(self, ev):
+        """this->codePos as the emit primitives would have left it (only when the caller gave a start position)"""
+        p0 = getattr(self, 'pos0', None)
+        if p0 is not None:
+            ev.env['this->codePos'] = KB.const(32, p0 + len(self.bytes) + getattr(self, 'base_len', 0))
+
     def put(self, kb, nbytes, where):
         v = kb.value()
         if v is None:
@@ -135,6 +141,7 @@ class X86Exec:
         if top['k'] == 'Call':
             nm = top.get('name')
             where = loc(top, f)
+            self.sync_pos(ev)
             if nm == '__builtin_unreachable':
                 raise AnalysisBroken('X86-HSEM: unreachable statement reached at %s' % where)
             if nm == 'emitByte':
@@ -1056,3 +1063,90 @@ def rule_fp_hsem(ctx, R):
             R.ok(inst, where)
     if n < 1000:
         raise AnalysisBroken('X86-FP-HSEM: only %d cases evaluated' % n)
+
+
+# ---------------------------------------------------------------------------------------------------------------------------
+# CBRANCH
+
+def rule_cbranch(ctx, R):
+    if STRICT_FAMILY:
+        R.note('rule_cbranch skipped: RXVERIF_STRICT_FAMILY=1')
+        return
+    F, hs = jit.handlers(ctx, 'x86')
+    cls = 'randomx::JitCompilerX86'
+    R.rule('X86-CBR-HSEM', 'the bytes h_CBRANCH emits are `add dst, imm` with the immediate of specification 5.4.3 (bit mod.cond + 8 set, the bit below it cleared, sign-extended), `test dst, 0xFF << (mod.cond + 8)` on the same register '
+           'and a `jz` whose displacement, added to the address after the jump, is the code offset recorded for the instruction after the last one that modified the register (registerUsage[dst] + 1); '
+           'for every dst, every mod.cond, boundary immediates and several (target offset, current position) pairs, forwards never', min_instances=500)
+    R.saw(config='K0', unit='src/jit_compiler_x86.cpp')
+    h = hs['CBRANCH'].f
+    R.saw(fn=h['q'])
+    where = '%s:%d' % (h['file'], h['line'])
+    co = F.const('randomx::ConditionOffset')
+    cm = F.const('randomx::ConditionMask')
+    if co is None or cm is None:
+        raise AnalysisBroken('X86-CBR-HSEM: ConditionOffset / ConditionMask not found')
+    # the table read for the jump target and the member read for the last writer
+    vec_fn = None
+    usage_keys = set()
+    for c in astq.calls(h['body']):
+        if c.get('opcall') == '[]' and 'vector' in (c.get('fn') or ''):
+            vec_fn = c['fn']
+    for x in astq.walk(h['body']):
+        if x['k'] == 'Idx' and show(x['b']).split('>')[-1].split('.')[-1] in ('registerUsage',) and strip_all(x['i'])['k'] != 'Ref' or (x['k'] == 'Idx' and 'registerUsage' in show(x['b'])):
+            usage_keys.add(show(x))
+    if vec_fn is None:
+        raise AnalysisBroken('X86-CBR-HSEM: the jump-target table access was not found in h_CBRANCH')
+    cases = []
+    for d in range(8):
+        for cond in range(16):
+            for imm in (0, 0xFFFFFFFF, 0x80000000, 0x7FFFFFFF, 0x00FF00FF):
+                for pos0, tgt_off, last in ((0x400, 0x123, 3), (0x7FF0, 0x40, 0), (0x900, 0x8F0, 250)):
+                    if (d + cond + (imm & 1)) % 3 and pos0 != 0x400:
+                        continue
+                    fields = {'dst': KB.const(8, d), 'src': KB.const(8, (d + 1) % 8), 'mod': KB.const(8, cond << 4)}
+                    ov = {'randomx::Instruction::getImm32': KB.const(32, imm), 'randomx::Instruction::getModCond': KB.const(32, cond), vec_fn: KB.const(32, tgt_off)}
+                    ex = X86Exec(F, cls, fields, ov)
+                    ex.pos0 = pos0
+                    ex.env_extra = {k_: KB.const(32, last) for k_ in usage_keys}
+                    ex.env_extra['this->codePos'] = KB.const(32, pos0)
+                    ex.run(h, [None, KB.const(32, last + 5)])
+                    cases.append((d, cond, imm, pos0, tgt_off, tuple(ex.bytes)))
+    dis = disassemble([c[-1] for c in cases if c[-1]])
+    uniq = sorted(set(c[-1] for c in cases if c[-1]))
+    slot_of = {b: i for i, b in enumerate(uniq)}
+    n = 0
+    for d, cond, imm, pos0, tgt_off, code in cases:
+        n += 1
+        shift = cond + co
+        want_imm = ((imm | (1 << shift)) & ~(1 << (shift - 1))) & 0xffffffff if (co > 0 or shift > 0) else (imm | (1 << shift)) & 0xffffffff
+        want_imm_s = want_imm | (0xffffffff00000000 if want_imm >> 31 else 0)
+        want_mask = (cm << shift) & 0xffffffff
+        ins = dis.get(code, [])
+        bad = None
+        tr = [(mn + ' ' + ops).strip() for mn, ops, nb, off in ins]
+        reg = 'r%d' % (8 + d)
+        if len(ins) != 3 or [i_[0] for i_ in ins] != ['add', 'test', 'je']:
+            bad = 'expected add / test / je, found `%s`' % ' ; '.join(tr)
+        else:
+            (m1, o1, n1, f1), (m2, o2, n2, f2), (m3, o3, n3, f3) = ins
+            a1 = [x.strip() for x in o1.split(',')]
+            a2 = [x.strip() for x in o2.split(',')]
+            if a1[0] != reg or (int(a1[1], 0) & M64) != want_imm_s:
+                bad = '`%s`: the specification adds %#x to r%d' % (tr[0], want_imm_s, d)
+            elif a2[0] != reg or (int(a2[1], 0) & 0xffffffff) != want_mask or (int(a2[1], 0) >> 32) not in (0,):
+                bad = '`%s`: the specification tests r%d against %#x' % (tr[1], d, want_mask)
+            else:
+                tgt_abs = int(o3.split()[0], 16)
+                if tgt_abs >> 63:
+                    tgt_abs -= 1 << 64
+                rel = tgt_abs - (slot_of[code] * SLOT + f3 + n3)
+                lands = pos0 + f3 + n3 + rel
+                if lands != tgt_off:
+                    bad = 'the jump lands at code offset %#x, the target instruction starts at %#x (`%s`, emitted at %#x)' % (lands & 0xffffffff, tgt_off, tr[2], pos0)
+        inst = 'CBRANCH dst=r%d mod.cond=%d imm32=%#x at %#x -> %#x' % (d, cond, imm, pos0, tgt_off)
+        if bad:
+            R.violation(inst, where, expected='add r, imm\' ; test r, mask ; jz target', found=bad)
+        else:
+            R.ok(inst, where)
+    if n < 500:
+        raise AnalysisBroken('X86-CBR-HSEM: only %d cases' % n)
